@@ -1115,3 +1115,103 @@ Proof.
   cbn [ngood] in Hg. destruct Hg as (Hinit & Hxp). destruct (Hxp x Hx) as (H1 & H2 & H3 & H4 & _).
   split; [exact H1|]. split; [exact H2|]. split; [exact H3|]. split; [exact H4|exact Hinit].
 Qed.
+
+(* ================= H. witnesses of the layout-2 defect, finite sweep ================= *)
+(* 0.5E1  0.55E1  0.055E2  0.0055E3  0.123456E3 *)
+Definition w_05E1 : bytes := [48;46;53;69;49]%N.
+Definition w_055E1 : bytes := [48;46;53;53;69;49]%N.
+Definition w_0055E2 : bytes := [48;46;48;53;53;69;50]%N.
+Definition w_00055E3 : bytes := [48;46;48;48;53;53;69;51]%N.
+Definition w_0123456E3 : bytes := [48;46;49;50;51;52;53;54;69;51]%N.
+
+Definition value_of (s : bytes) : list cell :=
+  match number_c s with JOk r => n_value r | _ => [] end.
+
+(* what lyjson_number() hands on for 0.5E1: the block holds `.` and the NUL, buf_len is 1, but two bytes
+   (`.` and `5`) were stored before the NUL, which overwrote the `5` *)
+Definition x_05E1 : expres :=
+  {| x_buf := [Some 46%N; Some 0%N]; x_len := 1; x_end := 2; x_branch := 2%N |}.
+Definition r_05E1 : numres :=
+  {| n_value := [Some 46%N]; n_consumed := 5; n_dynamic := true; n_exp := Some x_05E1 |}.
+Definition x_00055E3 : expres :=
+  {| x_buf := [Some 53%N; Some 53%N; Some 0%N]; x_len := 2; x_end := 2; x_branch := 2%N |}.
+Definition r_00055E3 : numres :=
+  {| n_value := [Some 53%N; Some 53%N]; n_consumed := 8; n_dynamic := true; n_exp := Some x_00055E3 |}.
+
+Lemma len_exact_refuted :
+  exists s r x, number_c s = JOk r /\ n_exp r = Some x /\ x_end x <> x_len x.
+Proof.
+  exists w_05E1, r_05E1, x_05E1. split; [vm_compute; reflexivity|]. split; [reflexivity|].
+  vm_compute. discriminate.
+Qed.
+
+Lemma wrong_values :
+  value_of w_05E1 = [Some 46%N] /\
+  value_of w_055E1 = [Some 46%N; Some 53%N] /\
+  value_of w_0055E2 = [Some 53%N; Some 46%N] /\
+  value_of w_00055E3 = [Some 53%N; Some 53%N] /\
+  value_of w_0123456E3 = [Some 49%N; Some 50%N; Some 46%N; Some 51%N; Some 52%N; Some 53%N].
+Proof. vm_compute. repeat split. Qed.
+
+Lemma denotes_refuted : exists s r, number_c s = JOk r /\ denotes_ok (cstr s) r = false.
+Proof. exists w_05E1, r_05E1. split; vm_compute; reflexivity. Qed.
+
+(* 0.0055E3 is 5.5; the text produced is `55`: a well-formed decimal, but another number *)
+Lemma denotes_refuted_silent :
+  exists s r, number_c s = JOk r /\ denotes_ok (cstr s) r = false /\
+              json_denote (cstr s) = Some (55, -1) /\ dec_denote (cells_bytes (n_value r)) = Some (55, 0).
+Proof. exists w_00055E3, r_00055E3. vm_compute. repeat split. Qed.
+
+(* all strings of at most five characters over  0 1 5 - + . E e *)
+Definition sweep_alphabet : bytes := [48;49;53;45;43;46;69;101]%N.
+
+Fixpoint all_strs (n : nat) (f : bytes -> bool) : bool :=
+  f [] && match n with
+          | O => true
+          | S k => forallb (fun c => all_strs k (fun t => f (c :: t))) sweep_alphabet
+          end.
+
+Lemma all_strs_spec n : forall f, all_strs n f = true ->
+  forall t, (length t <= n)%nat -> Forall (fun c => In c sweep_alphabet) t -> f t = true.
+Proof.
+  induction n as [|n IH]; intros f H t Hl Hin; cbn [all_strs] in H; apply andb_true_iff in H;
+    destruct H as [H0 H].
+  - destruct t as [|c t]; [exact H0|]. cbn [length] in Hl. lia.
+  - destruct t as [|c t]; [exact H0|]. inversion Hin as [|c' t' Hc Ht]; subst c' t'.
+    rewrite forallb_forall in H. specialize (H c Hc).
+    apply (IH (fun t => f (c :: t)) H t); [cbn [length] in Hl; lia|exact Ht].
+Qed.
+
+Definition sweep_ok (s : bytes) : bool :=
+  match number_c s with
+  | JOk r => if negb (n_dynamic r) || match n_exp r with Some x => negb (x_branch x =? 2)%N | None => false end
+             then denotes_ok (cstr s) r else true
+  | _ => true
+  end.
+
+Lemma sweep_all : all_strs 5 sweep_ok = true.
+Proof. vm_cast_no_check (eq_refl true). Qed.
+
+(* outside layout 2 the produced text denotes the number that was given, for every short string *)
+Lemma denotes_bounded :
+  forall s, (length s <= 5)%nat -> Forall (fun c => In c sweep_alphabet) s ->
+  forall r, number_c s = JOk r ->
+    (n_dynamic r = false \/ exists x, n_exp r = Some x /\ x_branch x <> 2%N) ->
+    denotes_ok (cstr s) r = true.
+Proof.
+  intros s Hl Hin r Hr Hc. pose proof (all_strs_spec 5 sweep_ok sweep_all s Hl Hin) as Hs.
+  unfold sweep_ok in Hs. rewrite Hr in Hs. destruct Hc as [Hd|(x & Hx & Hb)].
+  - rewrite Hd in Hs. cbn [negb orb] in Hs. exact Hs.
+  - rewrite Hx in Hs. replace (negb (x_branch x =? 2)%N) with true in Hs by lia.
+    rewrite orb_true_r in Hs. exact Hs.
+Qed.
+
+(* the sweep meets every layout: 1E-1 (1), 0.1E1 (2, excluded from the statement), 15E-1 (3),
+   0.1E5 (4), 1E1 (5) *)
+Lemma sweep_layouts :
+  map (fun s => match number_c s with
+                | JOk r => match n_exp r with Some x => x_branch x | None => 0%N end
+                | _ => 0%N end)
+      [[49;69;45;49]; [48;46;49;69;49]; [49;53;69;45;49]; [48;46;49;69;53]; [49;69;49]]%N
+  = [1; 2; 3; 4; 5]%N.
+Proof. vm_compute. reflexivity. Qed.
